@@ -22,6 +22,19 @@ impl MeshBuilder {
         self.out
     }
 
+    /// Verification hook: the mesh, and for each of its vertices the index in
+    /// [`Octree::verts`](super::Octree::verts) it was copied from
+    #[cfg(fidget_verif)]
+    pub(crate) fn verif_take(self) -> (Mesh, Vec<usize>) {
+        let mut inv = vec![usize::MAX; self.out.vertices.len()];
+        for (v, m) in self.map.iter().enumerate() {
+            if *m != usize::MAX {
+                inv[*m] = v;
+            }
+        }
+        (self.out, inv)
+    }
+
     pub(crate) fn cell(&mut self, octree: &Octree, cell: CellIndex<3>) {
         dc::dc_cell(octree, cell, self);
     }
